@@ -14,6 +14,7 @@ import TsRsVerif.Model.TsWitness
 import TsRsVerif.Model.Attr
 import TsRsVerif.Model.Validity
 import TsRsVerif.Model.Comment
+import TsRsVerif.Model.TreeDerive
 open Lean TsRs
 
 def gs (j : Json) (k : String) : Str :=
@@ -391,6 +392,30 @@ partial def loop (h : IO.FS.Stream) (out : IO.FS.Stream) (st : DState) : IO Unit
       let cfg : Cfg := { ops := opsOf st.chars }
       let outs := (ProgIO.arr j "probes").map (ProgIO.probe cfg env (gb j "esm") (gs j "cwd") (gs j "out_dir"))
       out.putStrLn (Json.mkObj [("probes", Json.arr outs.toArray)]).compress
+      loop h out st
+    else if op = "tree_check" then
+      -- the tree-level derive (Model/TreeDerive.lean) against the REAL declarations: the largest closed sub-program inside the
+      -- fragment is determined, `fragB` is evaluated on it, and every item's tree is compared with the parsed real `decl()`
+      let env : Env := (ProgIO.arr j "items").map ProgIO.item
+      let cfg : Cfg := { ops := opsOf st.chars }
+      let decls := gsl j "decls"
+      let env0 := env.filter (Tree.itemOk cfg)
+      let rec shrink : Nat → Env → Env
+        | 0, e => e
+        | n + 1, e =>
+          let e' := e.filter fun it => (Tree.itemBody cfg e it).isSome
+          if e'.length = e.length then e else shrink n e'
+      let sub := shrink env.length env0
+      let frag := Tree.fragB cfg sub
+      let rows := (env.zip decls).map fun (it, d) =>
+        if (sub.find? (·.name = it.name)).isNone || !frag then Json.mkObj [("in", Json.bool false)]
+        else
+          match Tree.itemBody cfg sub it, TsParse.parseDecl d with
+          | some b, some (n, _, pb) =>
+            Json.mkObj [("in", Json.bool true),
+              ("eq", Json.bool (n == Derive.tsName it && Ts.beq (Ts.norm [] [] 60 b) (Ts.norm [] [] 60 pb)))]
+          | _, _ => Json.mkObj [("in", Json.bool true), ("eq", Json.bool false), ("unparsed", Json.bool true)]
+      out.putStrLn (Json.mkObj [("frag", Json.bool frag), ("sub", Json.num sub.length), ("rows", Json.arr rows.toArray)]).compress
       loop h out st
     else if op = "uhist" then
       out.putStrLn (runUHist st.uni j).compress
